@@ -115,7 +115,7 @@ func runNeutralTest(prop, repo string, baseKeys map[string]bool) ([]selfTestResu
 		}
 	}
 	results := make([]selfTestResult, len(ids))
-	sem := make(chan struct{}, 6)
+	sem := make(chan struct{}, 12)
 	var wg sync.WaitGroup
 	for i, id := range ids {
 		wg.Add(1)
@@ -184,7 +184,7 @@ func runSelfTest(prop, repo string) ([]selfTestResult, bool) {
 	}
 	exe, _ := os.Executable()
 	results := make([]selfTestResult, len(corpus))
-	sem := make(chan struct{}, 6)
+	sem := make(chan struct{}, 12)
 	var wg sync.WaitGroup
 	for i, m := range corpus {
 		wg.Add(1)
